@@ -191,13 +191,15 @@ impl ReceiveChannelUnreliable {
         // Use the number of slices that was reserved when the first slice arrived,
         // later slices could announce a different value.
         let num_slices = slice_constructor.num_slices;
+        // A copy of a slice that is already there is no progress: it must not postpone the discard
+        let is_new_slice = !slice_constructor.has_slice(slice.slice_index);
         if let Some(message) = slice_constructor.process_slice(slice.slice_index, &slice.payload)? {
             self.slices.remove(&slice.message_id);
             self.slices_last_received.remove(&slice.message_id);
             self.memory_usage_bytes -= num_slices * SLICE_SIZE;
             self.memory_usage_bytes += message.len();
             self.messages.push_back(message);
-        } else {
+        } else if is_new_slice {
             self.slices_last_received.insert(slice.message_id, current_time);
         }
 
